@@ -55,6 +55,13 @@ func runC11(c *Ctx) {
 	kinds := []string{"calloc", "mmap", "autommap", "persistent"}
 	caps := []int{0, 1, 63, 64, 65, 4096}
 	counts := []int{0, 1, 2, 1023, 1024, 1025, 2047, 2048, 2049, 5000}
+	if c.Part == 0 && c.Arg != "asan" { // (a 1 GiB region under the address sanitizer costs its shadow memory: ptr build only)
+		for _, kind := range []string{"mmap", "calloc"} {
+			for _, off := range []bool{false, true} {
+				c11Huge(c, kind, off)
+			}
+		}
+	}
 	n := c.N(2400, 40000)
 	for i := 0; i < n; i++ {
 		if i%c.NParts != c.Part {
@@ -592,4 +599,75 @@ func c11One(c *Ctx, rng *lab.RNG, cs c11Case) {
 	if !failed {
 		r.Sample(2, map[string]any{"case": cs, "slices_at_end": len(ref), "trace_tail": trace[max(0, len(trace)-5):]})
 	}
+}
+
+// c11Huge: ONE request larger than the 1 GiB growth step on a small buffer that already holds data (sparse
+// file / untouched pages, so it costs nothing): the buffer must grow by at least what was asked for, hand out exactly
+// that many bytes, keep what was written before and read back what is written at both ends of the new region.
+func c11Huge(c *Ctx, kind string, viaOffset bool) {
+	r := c.R
+	r.Eval(1)
+	name := fmt.Sprintf("c11-huge-request-%s-offset%v", kind, viaOffset)
+	c.J.Case(name)
+	var b *z.Buffer
+	var err error
+	if kind == "mmap" {
+		b, err = z.NewBufferTmp(c.TmpDir, 4096)
+	} else {
+		b = z.NewBuffer(4096, "verif")
+	}
+	if err != nil || b == nil {
+		r.Inconc(1)
+		return
+	}
+	defer lab.Try(func() { b.Release() })
+	fail := func(sig, d string) { r.Violate("C11/"+sig, fmt.Sprintf("[%s] %s", name, d), name) }
+	head := []byte("written-before-the-huge-request")
+	const n = 1<<30 + 4096 + 13
+	p := lab.Try(func() {
+		b.Write(head)
+		before := b.LenNoPadding()
+		var region []byte
+		if viaOffset {
+			end := b.LenWithPadding() // offsets count the padding in front of the data
+			off := b.AllocateOffset(n)
+			if off != end {
+				fail("huge/offset", fmt.Sprintf("AllocateOffset(%d) returned %d, the buffer ended at offset %d", n, off, end))
+				return
+			}
+			region = b.Data(off) // everything from off to the end of the capacity
+			if len(region) < n {
+				fail("huge/length", fmt.Sprintf("asked for %d bytes at offset %d, only %d are addressable", n, off, len(region)))
+				return
+			}
+			region = region[:n]
+		} else {
+			region = b.Allocate(n)
+		}
+		if len(region) != n {
+			fail("huge/length", fmt.Sprintf("asked for %d bytes, got %d", n, len(region)))
+			return
+		}
+		copy(region, "first-bytes")
+		copy(region[n-10:], "last-bytes")
+		all := b.Bytes()
+		if len(all) != before+n {
+			fail("huge/bytes-length", fmt.Sprintf("Bytes() has %d bytes after %d + %d were written", len(all), before, n))
+			return
+		}
+		if string(all[:len(head)]) != string(head) || string(all[before:before+11]) != "first-bytes" || string(all[len(all)-10:]) != "last-bytes" {
+			fail("huge/content", "what was written before or at the ends of the huge region does not read back")
+			return
+		}
+		b.Write([]byte("tail"))
+		if got := b.Bytes(); string(got[len(got)-4:]) != "tail" || len(got) != before+n+4 {
+			fail("huge/append-after", "a Write after the huge region is not at the end of Bytes()")
+		}
+	})
+	if p != nil {
+		fail("huge/panic/"+p.Short(), p.Msg)
+		return
+	}
+	r.Obs("huge_requests", 1)
+	r.DistinctKey("%s", name)
 }
